@@ -60,6 +60,29 @@ def removePIs (root : Node) : Node := rewriteBelow piPass.f root
 /-- `remove_anonymous_symbols`: `//svg:symbol[not(@id)]` -/
 def removeAnonSymbols (root : Node) : Node := rewriteBelow anonSymbolPass.f root
 
+def isGradientTag (t : String) : Bool := t == svgTag "linearGradient" || t == svgTag "radialGradient"
+
+mutual
+  /-- the gradient elements below a node, outermost ones, in document order -/
+  def gradsOf : Node → List Node
+    | .elem u t a cs => if isGradientTag t then [.elem u t a cs] else gradsOfList cs
+    | _ => []
+  def gradsOfList : List Node → List Node
+    | [] => []
+    | c :: cs => gradsOf c ++ gradsOfList cs
+end
+
+/-- what `remove_anonymous_symbols` leaves in the place of an element: a symbol without id goes, the gradients written
+    inside it stay where it was (they can be referenced from anywhere); everything else is kept -/
+def anonSymbolHoist : Node → List Node
+  | .elem u t a cs => if t == svgTag "symbol" && !(a.has "id") then gradsOfList cs else [.elem u t a cs]
+  | n => [n]
+
+/-- `remove_anonymous_symbols` as the code does it since the gradients inside an anonymous symbol are kept (bottom-up, so the
+    gradients of an anonymous symbol inside an anonymous symbol end up before the outer one). Where no anonymous symbol has a
+    gradient below it this is `removeAnonSymbols`, the per-element pass the C14 theorems are about. -/
+def removeAnonSymbolsH (root : Node) : Node := rewriteBelow anonSymbolHoist root
+
 /-- `remove_title_meta_desc` -/
 def removeTitleMetaDesc (root : Node) : Node := rewriteBelow metaPass.f root
 
